@@ -556,6 +556,16 @@ class CallMixin:
         mk = sort_of(t).constructor(0)
         return k(st, st.alloc(HList(t, z3.Lambda([i], mk(i, z3.Select(h.arr, i))), h.n)))
 
+    def orderable(self, et):
+        """values of this type can always be compared with < (no TypeError)"""
+        if et[0] in ('int', 'bool', 'real'):
+            return True
+        if et[0] == 'obj':
+            return et[1] == 'Str' or et[1] in getattr(self, 'ordered_sorts', ())
+        if et[0] == 'tuple':
+            return all(self.orderable(a) for a in et[1])
+        return False
+
     def bi_zip(self, args, kws, st, node, k):
         if len(args) != 2:
             raise Unsupported("zip of %d iterables (line %s)" % (len(args), node.lineno))
@@ -683,6 +693,12 @@ class CallMixin:
         if isinstance(v, VInt):
             return k(st, v)
         raise Unsupported("int(%r): give a rule (line %s)" % (v, node.lineno))
+
+    def bi_id(self, args, kws, st, node, k):
+        v = args[0]
+        if isinstance(v, VObj):
+            return k(st, self.uf('id_of', [v], T_INT))
+        return k(st, fresh_val(T_INT, 'id', st))
 
     def bi_bool(self, args, kws, st, node, k):
         return k(st, VBool(self.truth(args[0], st)))
@@ -864,6 +880,18 @@ class CallMixin:
                 st.heap[recv.rid] = self.reversed_hlist(h, st)
             return k(st, NONE)
         if name == 'sort':
+            if h.et is not None and 'key' not in kws and not self.orderable(h.et):
+                # comparing arbitrary objects may raise TypeError (e.g. a test object against a string)
+                out = []
+                for s2, two in self.branch(st, h.n >= 2, 'sort@%s' % node.lineno):
+                    if two:
+                        s3 = s2.copy()
+                        s3.path.append('sort!TypeError@%s' % node.lineno)
+                        out += self.raise_(s3, 'TypeError')
+                    h2 = s2.heap[recv.rid]
+                    s2.heap[recv.rid] = self.permutation_of(h2, s2)
+                    out += k(s2, NONE)
+                return out
             if h.et is not None:
                 R = self.permutation_of(h, st)
                 if 'key' not in kws:
@@ -937,6 +965,15 @@ class CallMixin:
             else:
                 raise Unsupported("dict.%s on an untyped empty dict (line %s)" % (name, node.lineno))
         if name == 'add':
+            try:
+                mismatch = not isinstance(args[0], VOpt) and h.kt[0] != 'opt' and type_of_val(args[0], st) != h.kt \
+                    and not (h.kt[0] == 'int' and isinstance(args[0], (VInt, VBool)))
+            except TypeError:
+                mismatch = False
+            if mismatch:
+                # an element of another type than the set is declared to hold: membership of the declared type is unchanged
+                self.note('rule', (node.lineno, ast.unparse(node)[:60], 'set.add of a value of another type: no effect on the modelled membership'))
+                return k(st, NONE)
             st.heap[recv.rid] = HDict(h.kt, h.vt, z3.Store(h.mem, to_z3(args[0], h.kt), z3.BoolVal(True)), h.vals)
             return k(st, NONE)
         if name == 'discard':
